@@ -29,6 +29,9 @@ class Impl:
         from maltoolbox.exceptions import AttackGraphException
         g, k = self.g, op['k']
         err, out = None, None
+        before = getattr(self, '_last_obs', None)
+        if before is None: before = self.obs()
+        rej = None          # a freshly constructed object that the call was given, as the call left it
         try:
             if k == 'add_node':
                 n = AttackGraphNode(type=op['type'], name=op['name'], ttc=None, asset=self.asset(op.get('asset')))
@@ -54,9 +57,17 @@ class Impl:
                 g.remove_node(self.nodes[op['n']])
             elif k == 'add_attacker':
                 a = Attacker(name=op['name'], entry_points=[], reached_attack_steps=[])
+                rej = a
                 g.add_attacker(a, attacker_id=op.get('id'), entry_points=list(op['entry']),
                                reached_attack_steps=list(op['reached']))
+                rej = None
                 self.atts.append(a)
+            elif k == 'add_node_again':
+                # the node object `n` (already handed to add_node once) is handed to add_node again
+                g.add_node(self.nodes[op['n']], node_id=op.get('id'))
+            elif k == 'add_attacker_again':
+                g.add_attacker(self.atts[op['a']], attacker_id=op.get('id'), entry_points=list(op['entry']),
+                               reached_attack_steps=list(op['reached']))
             elif k == 'remove_attacker':
                 g.remove_attacker(self.atts[op['a']])
             elif k in ('compromise', 'undo'):
@@ -126,7 +137,16 @@ class Impl:
             err = 'AttackGraphException'
         except LookupError:
             err = 'LookupError'
-        return {'err': err, 'out': out, 'obs': self.obs(), 'other': self.obs(self.other) if self.other is not None else None}
+        obs = self.obs()
+        self._last_obs = obs
+        res = {'err': err, 'out': out, 'obs': obs, 'other': self.obs(self.other) if self.other is not None else None}
+        if err is not None:
+            # a rejected operation must leave the observable state as it was ...
+            res['rejected_changed'] = [k2 for k2 in obs if obs[k2] != before[k2]]
+            # ... and the freshly constructed attacker it was given untouched (no id, nothing reached, no entry point)
+            if rej is not None:
+                res['rejected_obj'] = [rej.id, len(rej.reached_attack_steps), len(rej.entry_points)]
+        return res
 
     def _eps(self, eps):
         # model entry points: [(asset, [steps])] from full names "asset:step"
@@ -173,14 +193,18 @@ def consistent(g):
     if len(idset) != len(nodes): probs.append('node stored twice')
     ids = [n.id for n in nodes]
     if len(set(ids)) != len(ids): probs.append('id given to two nodes')
+    # multiplicity of every edge on both sides, by object identity (counted once per node, not once per edge)
+    from collections import Counter
+    nch = {id(n): Counter(id(x) for x in n.children) for n in nodes}
+    npa = {id(n): Counter(id(x) for x in n.parents) for n in nodes}
     for n in nodes:
         for c in n.children:
             if id(c) not in idset: probs.append(f'child {c.id} of {n.id} not in graph')
-            elif sum(1 for x in n.children if x is c) != sum(1 for x in c.parents if x is n):
+            elif nch[id(n)][id(c)] != npa[id(c)][id(n)]:
                 probs.append(f'edge {n.id}->{c.id} not mirrored')
         for p in n.parents:
             if id(p) not in idset: probs.append(f'parent {p.id} of {n.id} not in graph')
-            elif sum(1 for x in n.parents if x is p) != sum(1 for x in p.children if x is n):
+            elif npa[id(n)][id(p)] != nch[id(p)][id(n)]:
                 probs.append(f'edge {p.id}->{n.id} not mirrored')
     if sorted(g._id_to_node.keys()) != sorted(ids) or any(g._id_to_node.get(n.id) is not n for n in nodes):
         probs.append('id index differs from the nodes in the graph')
@@ -200,6 +224,17 @@ def consistent(g):
     for n in nodes:
         for a in n.compromised_by:
             if id(a) not in aset: probs.append(f'node {n.id} references attacker {a.id} not in graph')
+    return probs
+
+def rejected_clean(st):
+    """a rejected operation changes nothing (C09: in particular it cannot leave an attacker that is not part of the
+    graph on a node, a second id on an object, a moved counter)"""
+    probs = []
+    if st.get('err') is None: return probs
+    if st.get('rejected_changed'):
+        probs.append('a rejected operation (' + str(st['err']) + ') changed the observable state: ' + ', '.join(st['rejected_changed']))
+    if st.get('rejected_obj') not in (None, [None, 0, 0]):
+        probs.append('a rejected add_attacker changed the attacker object it was given (id, reached, entry points)')
     return probs
 
 def mirror(g):
@@ -319,6 +354,47 @@ class Gen:
                 a = self.arefs; self.arefs += 1
                 self.aids[a] = eff; self.next_a = max(eff + 1, self.next_a); self.used_aids.add(eff)
                 self.live_a.append(a); self.reached[a] = set(reached); self.anames[a] = aname
+            elif k == 'add_attacker_bad' and self.live_n:
+                # MIXED valid / invalid node ids: an id that names no node of the graph (never used, or the id of a removed
+                # node) AFTER one or more valid ones, among the reached steps and / or the entry points.  Always rejected;
+                # nothing may have happened to the graph (the valid ids in front must not have been acted upon).
+                live_ids = [self.ids[x] for x in self.live_n]
+                bad_ids = [i for i in [self.ids[x] for x in self.dead_n if x in self.ids] + [self.next_n, self.next_n + 3, -1]
+                           if i not in live_ids]
+                valid = lambda lo, hi: [self.ids[x] for x in r.sample(self.live_n, min(len(self.live_n), r.randint(lo, hi)))]
+                where = r.choice(['reached', 'entry', 'both'])
+                rids, eids = valid(0, 3), valid(0, 2)
+                if where in ('reached', 'both'):
+                    rids = rids or valid(1, 2); rids.insert(r.randint(1, len(rids)), r.choice(bad_ids))
+                if where in ('entry', 'both'):
+                    eids = eids or valid(1, 2); eids.insert(r.randint(1, len(eids)), r.choice(bad_ids))
+                aid = r.choice([None, None, self.next_a + r.randint(0, 2)])
+                self.ops.append({'k': 'add_attacker', 'name': f'bad{self.arefs}', 'id': aid, 'entry': eids, 'reached': rids,
+                                 'case': 'unknown-id-after-valid-ids:' + where})
+            elif k == 'add_attacker_used_id' and self.live_n and self.live_a:
+                # an id that is in use while there ARE reached steps: rejected before anything is compromised
+                reached = r.sample(self.live_n, min(len(self.live_n), r.randint(1, 3)))
+                self.ops.append({'k': 'add_attacker', 'name': f'dup{self.arefs}', 'id': self.aids[r.choice(self.live_a)],
+                                 'entry': [self.ids[x] for x in reached[:1]], 'reached': [self.ids[x] for x in reached],
+                                 'case': 'id-in-use-with-reached-steps'})
+            elif k == 'add_attacker_again' and self.live_a:
+                # an attacker object that is already part of the graph: same id, another id, no id
+                a = r.choice(self.live_a)
+                how = r.choice(['same-id', 'other-id', 'no-id'])
+                others = [self.aids[x] for x in self.live_a if x != a]
+                aid = {'same-id': self.aids[a], 'no-id': None,
+                       'other-id': r.choice(others + [self.next_a + r.randint(0, 2)] * 2)}[how]
+                reached = r.sample(self.live_n, min(len(self.live_n), r.randint(0, 2)))
+                entry = r.sample(self.live_n, min(len(self.live_n), r.randint(0, 1)))
+                self.ops.append({'k': 'add_attacker_again', 'a': a, 'id': aid, 'entry': [self.ids[x] for x in entry],
+                                 'reached': [self.ids[x] for x in reached], 'case': 'attacker-object-again:' + how})
+            elif k == 'add_node_again' and self.live_n:
+                n = r.choice(self.live_n)
+                how = r.choice(['same-id', 'other-id', 'no-id'])
+                others = [self.ids[x] for x in self.live_n if x != n]
+                nid = {'same-id': self.ids[n], 'no-id': None,
+                       'other-id': r.choice(others + [self.next_n + r.randint(0, 2)] * 2)}[how]
+                self.ops.append({'k': 'add_node_again', 'n': n, 'id': nid, 'case': 'node-object-again:' + how})
             elif k == 'remove_attacker' and self.live_a:
                 a = r.choice(self.live_a); self.live_a.remove(a); self.dead_a.append(a)
                 self.ops.append({'k': 'remove_attacker', 'a': a})
